@@ -151,7 +151,16 @@ public:
     }
     else if (IsOverflowAttributes())
     {
-      hash_map_[kOverflowAttributes] = std::move(aggr);
+      // fold into the overflow entry instead of replacing what it already holds
+      auto overflow = hash_map_.find(kOverflowAttributes);
+      if (overflow != hash_map_.end())
+      {
+        overflow->second = overflow->second->Merge(*aggr);
+      }
+      else
+      {
+        hash_map_[kOverflowAttributes] = std::move(aggr);
+      }
     }
     else
     {
@@ -168,7 +177,16 @@ public:
     }
     else if (IsOverflowAttributes())
     {
-      hash_map_[kOverflowAttributes] = std::move(aggr);
+      // fold into the overflow entry instead of replacing what it already holds
+      auto overflow = hash_map_.find(kOverflowAttributes);
+      if (overflow != hash_map_.end())
+      {
+        overflow->second = overflow->second->Merge(*aggr);
+      }
+      else
+      {
+        hash_map_[kOverflowAttributes] = std::move(aggr);
+      }
     }
     else
     {
